@@ -1,0 +1,12 @@
+//go:build verif
+
+// Contracts for the acv verifier (/verif). Comment-only file: no executable code.
+
+package common
+
+//@ func ValidateMaskingParams(pattern string, plaintextLength int, plaintextSide PlainTextSide, dataType common.EncryptedType) (err error)
+//@   props C11
+//@   safety
+//@   ensures accepted: err == nil ==> len(pattern) > 0 && 0 <= plaintextLength && (plaintextSide == PlainTextSideRight || plaintextSide == PlainTextSideLeft)
+//@   ensures accepted-type: err == nil ==> dataType == common.EncryptedType_String || dataType == common.EncryptedType_Bytes || dataType == common.EncryptedType_Unknown
+//@   modifies nothing
